@@ -4,7 +4,7 @@
 # existing tests of <package> (+extras) still pass with the patch. Leaves the worktree clean.
 set -u
 OUT=$1; PKG=$2; DEST=$3; shift 3
-W=/tmp/vfy
+W=${VFY_W:-/tmp/vfy}
 export CARGO_TARGET_DIR=$W/target CARGO_PROFILE_DEV_DEBUG=0 CARGO_PROFILE_TEST_DEBUG=0 CARGO_INCREMENTAL=0 CARGO_NET_OFFLINE=true
 if [ ! -d $W/repo ]; then mkdir -p $W; git -C /repo worktree prune; git -C /repo worktree add --detach $W/repo HEAD >/dev/null 2>&1 || exit 2; fi
 cd $W/repo || exit 2
